@@ -125,6 +125,9 @@ def run(ctx):
                (sp.get("is_for_parse") or {}).get("fn") == "std::char::methods::<impl char>::is_whitespace", "%s" % sp.get("is_for_parse"))
         ctx.ob("W-TABLE", "enum %s space.parse" % name, T.enum[name]["space"]["parse"] == " ", "%r" % T.enum[name]["space"]["parse"])
 
+    # a trailing space after a bare atom must not change the result: it did when the copula look-ahead accepted a truncated copula at the end of input (D9)
+    import fullmatch
+    fullmatch.rule_P_FULLMATCH(ctx)
     ctx.undecided = ["that removing ALL spaces never glues two tokens for every value (the copula look-ahead and identifier classes make "
                      "this value-dependent)", "the macro's whitespace stripping is an instance of `remove all spaces` and has no separate rule"]
     ctx.assumptions = ["the flag correlation modelled by the typestate (ok = match result {Ok=>true,Err=>false}) is the only one the parser's macros create"]
